@@ -38,8 +38,8 @@ def log(*a):
 
 
 # ------------------------------------------------------------------ preparation
-def prepare(scratch):
-    src = os.path.join(scratch, 'repo')
+def prepare(scratch, debug_assertions=False):
+    src = os.path.join(scratch, 'repo-dbg' if debug_assertions else 'repo')
     subprocess.run(['rsync', '-a', '--exclude', 'target', '--exclude', '.git', REPO + '/', src + '/'], check=True)
     env = dict(os.environ)
     env['CARGO_TARGET_DIR'] = os.path.join(scratch, 'mir-target')
@@ -48,7 +48,7 @@ def prepare(scratch):
     os.utime(os.path.join(src, 'src', 'lib.rs'))
     t = time.time()
     r = subprocess.run(['cargo', '+nightly', 'rustc', '--offline', '--lib', '--', '-Zunpretty=mir', '-Zmir-opt-level=0',
-                        '-C', 'debug-assertions=off', '-C', 'overflow-checks=on'],
+                        '-C', 'debug-assertions=%s' % ('on' if debug_assertions else 'off'), '-C', 'overflow-checks=on'],
                        cwd=src, env=env, capture_output=True, text=True)
     if r.returncode != 0 or 'fn ' not in r.stdout:
         raise Unsupported('MIR dump failed:\n' + r.stderr[-3000:])
@@ -117,7 +117,7 @@ def cvc5_decide(text, scratch_dir):
 
 def run_item(item):
     """explore every path of one work item under each of its layouts"""
-    P = G['P']
+    P = G['P_dbg'] if item.get('profile') == 'debug' else G['P']
     target = item['prop']
     res = dict(name=item['name'], paths=0, outcomes=collections.Counter(), queries=0, oracle_queries=0, solver_s=0.0,
                stmts=0, violations=[], error=None, bodies=set(), summaries=set(), sample=None, states=0, ops=0,
@@ -192,7 +192,7 @@ def run_item(item):
                                                   script=item['script'], layout=lspec, name=item['name'],
                                                   decisions=list(E.decisions), op_index=sc.op_index,
                                                   stack=getattr(exc, 'stack', []), trace=sc.trace, tags=item.get('tags', []),
-                                                  subject=sc.subject, rec_same=dict(sc.rec_same), opts=item.get('opts')))
+                                                  subject=sc.subject, rec_same=dict(sc.rec_same), opts=item.get('opts'), profile=item.get('profile')))
                 if item.get('collect'):
                     per_layout.append(item['collect'](sc, out, kind))
                 if item.get('post_path'):
@@ -323,6 +323,8 @@ def replay_violation(P, native, v, scratch):
     """returns (confirmed: bool, how: str, replay dict)"""
     if 'lemma' in (v.get('tags') or []):
         return replay_lemma(P, v)
+    if v.get('profile') == 'debug' and G.get('P_dbg') is not None:
+        P = G['P_dbg']       # the counterexample was found on the MIR of the debug profile (the native runner is a dev build)
     cs = concretise(v['script'], v['model'])
     for op in cs['ops']:
         if op['op'] in ('extras', 'wextras') and op['n'] > 100000:
@@ -485,6 +487,10 @@ def run(prop, tier, seed, a, scratch, t_start):
     log('[%s] translator validation: %d scripts agree' % (prop, nval))
 
     items = spec['items'](tier, seed, P)
+    if any(it.get('profile') == 'debug' for it in items):
+        # some families are also run on the MIR of the debug profile (debug assertions on: the profile the test suite uses)
+        G['P_dbg'], _, t_dbg = prepare(scratch, debug_assertions=True)
+        log('[%s] debug-profile MIR dump+parse %.1fs' % (prop, t_dbg))
     if a.only:
         items = [i for i in items if a.only in i['name']]
     if a.limit:
@@ -575,7 +581,7 @@ def run(prop, tier, seed, a, scratch, t_start):
         json.dump(dict(property=vp, cause=cause, clause=rep['clause'], detail=rep['detail'], model=rep['model'],
                        concrete_script=cs, script_text=(scr.to_text(cs, 'replay') if 'lemma' not in (rep.get('tags') or []) else json.dumps(cs)), confirmation=how, count=len(vs),
                        violation=dict(prop=vp, clause=rep['clause'], script=rep['script'], model=rep['model'],
-                                      layout=rep['layout'], oracles=rep['oracles'], opts=rep.get('opts'))),
+                                      layout=rep['layout'], oracles=rep['oracles'], opts=rep.get('opts'), profile=rep.get('profile'))),
                   open(path, 'w'), indent=1, default=str)
         if kf:
             known_hits.append((vp, cause, kf[0], len(vs), ok))
